@@ -21,7 +21,7 @@ RULE = ("2..5 real nodes per scenario; one node under test runs a seeded history
         "open on the reference addresses, EN_AA=3E, DYNPD=3F. Non-trivial: >=1 role change "
         "(RX->TX->RX) was observed in the scenario; distinct = (node class, call history with "
         "outcome class per call, fault plan).")
-RULE += (" Later rounds added: all ordered pairs of call kinds on one node (a third with multicast off), two frames waiting in the RX FIFO for one update(), multicast-off nodes under test.")
+RULE += (" Later rounds added: all ordered pairs of call kinds on one node (a third with multicast off), two frames waiting in the RX FIFO for one update(), multicast-off nodes under test. Multicasting switched off and on at run time (applied by assigning node_address or multicast_level again).")
 REQUIRED = {"invariant_at_return": 3000, "role_changes": 300, "exception_returns": 20,
             "failed_tx_returns": 50}
 BUDGET = {"quick": 480, "thorough": 900}
@@ -40,7 +40,7 @@ def gen_pairs(ctx):
              ["multicast", 4, 60], ["node_address", dut], ["node_address", 0o41], ["multicast_level", (own + 1) % 5],
              ["multicast_level", own], ["multicast_level", 4], ["inject_fwd", absent, 70], ["inject_fwd", 0o11 if dut != 0o11 else 0, 1],
              ["inject_two", 0o11 if dut != 0o11 else 0, 1, 193], ["inject_two", 0o2 if dut != 0o2 else 0o21, 70, 131],
-             ["send_mc_addr", 1],
+             ["send_mc_addr", 1], ["mc_switch", True, "level"], ["mc_switch", True, "addr"], ["mc_switch", False, "addr"],
              ["update"]]
         k = 0
         for a in T:
@@ -96,6 +96,9 @@ def gen_cases(ctx):
                     calls.append(["inject_two", rng.choice(absent + nodes), rng.choice([1, 70]), rng.choice([193, 131, 5, 130])])
                 else:
                     calls.append(["update"])
+            for q in range(len(calls)):
+                if (q * 7 + i) % 11 == 3:
+                    calls.insert(q, ["mc_switch", bool((q + i) % 2), ["addr", "level"][(q // 2 + i) % 2]])
             fault = rng.choice([None, None, "ack_loss", "netack_loss", "frag_loss"])
             yield {"kind": "net", "nodes": nodes, "dut": dut, "calls": calls, "fault": fault,
                    "fault_k": rng.randrange(0, 6), "seed": rng.getrandbits(30),
@@ -278,6 +281,15 @@ def _run_net(ctx, case, net):
             if c == "multicast_level":
                 o.multicast_level = call[1]
                 return o.multicast_level
+            if c == "mc_switch":
+                # multicasting switched off / on at run time and applied the documented ways:
+                # by assigning node_address again, or multicast_level (its present value)
+                o.allow_multicast = call[1]
+                if call[2] == "addr" or not call[1]:  # (switching OFF is applied by node_address only)
+                    o.node_address = o.node_address
+                else:
+                    o.multicast_level = o.multicast_level
+                return o.allow_multicast
             if c == "inject_fwd":
                 frm = 0o2 if call[1] != 0o2 else 0o3
                 nn.radio.inject_rx(2, net_ref.pack_header(frm, call[1], 99, call[2], 2) + b"fwd")
